@@ -50,6 +50,10 @@ def top_fn(P, f):
 
 def check(ctx):
     P = ctx.prog
+    # "the token is passed once every application has declined once or the hold time is over": the hold-time deadline is the previous
+    # token receipt plus the target rotation time (clause c.deadline of C13)
+    from rules import C13
+    rule.import_clauses(ctx, "C13", lambda s_: C13.check_deadline(s_, P, C13.fdl_fns(P)), clauses=("c.deadline",), as_clause="d.round-robin")
     ip, inv, muts = fdlstate.station_analysis(P)
     allowed = {"transmit_telegram": {"UseToken"}, "receive_reply": {"AwaitDataResponse"}, "handle_timeout": {"AwaitDataResponse"}}
     sites = {}
